@@ -134,6 +134,9 @@ def run(prop_id, tier, seed, jobs=None):
     if hasattr(mod, 'setup'):
         mod.setup(tier)
     units = list(mod.units(tier))
+    flt = os.environ.get('VERIF_UNIT_FILTER')
+    if flt:      # development aid only: never set by the registered commands
+        units = [u for u in units if flt in getattr(u, 'label', '')]
     n = len(units)
     # the seed only rotates the order in which units are handed out
     order = list(range(n))
